@@ -300,6 +300,8 @@ def gen(rng, tier):
         else:
             rd = rand_bytes(rng, rng.randint(0, 40))
         yield f"{'v' if rng.random() < 0.7 else 'c'} {c} {t} {hx(rd)}"
+        if known_ct(c, t) and fmt_of(c, t).count("N") and rng.random() < 0.5:
+            yield f"c {c} {t} {hx(rd)}"          # name-bearing types: the split oracle too
     for _ in range(n):
         yield read_case(rng)
     # large RDLENGTHs / large RDATA (u16 limits)
